@@ -63,6 +63,7 @@ Hypothesis Hclr : c_clears_ff c = true.
 Hypothesis Hsets : c_sets_ff c = true.
 Hypothesis Hfetch : c_tick_fetches c = true.
 Hypothesis Hrec : c_tok_recomputes c = true.
+Hypothesis Hctx : c_ctxdone c = false.
 
 Definition InvA (s : st) : Prop :=
   armed_at s <= now s /\
@@ -101,10 +102,11 @@ Proof.
       try congruence;
       (intros _; rewrite Eq; cbn [cmp]; (destruct (now s + delay_of o <? minp (z :: l)) eqn:E;
            [apply Z.ltb_lt in E|apply Z.ltb_ge in E]); lia).
-  - (* SelTick *) destruct (lpc s) eqn:Epc; try discriminate. destruct (chan s) eqn:Ec; [|discriminate]. injection Hs as <-.
+  - (* SelTick *) destruct (lpc s) eqn:Epc; try discriminate. destruct (chan s) eqn:Ec; [|discriminate]. rewrite Hctx in Hs. cbn [andb] in Hs. injection Hs as <-.
     rewrite Hfetch. unfold InvA, clear_lf. destruct (stale s); fin.
-  - (* SelTok *) destruct (lpc s) eqn:Epc; try discriminate. destruct (tok s) eqn:Et; [|discriminate]. injection Hs as <-.
+  - (* SelTok *) destruct (lpc s) eqn:Epc; try discriminate. destruct (tok s) eqn:Et; [|discriminate]. rewrite Hctx in Hs. cbn [andb] in Hs. injection Hs as <-.
     unfold InvA, take_token, clear_lf. rewrite Hrec. destruct (c_drain c); fin.
+  - (* SelDone *) destruct (lpc s) eqn:Epc; try discriminate. rewrite Hctx in Hs. discriminate.
   - (* LoopFetch *) destruct (lpc s) eqn:Epc; try discriminate. pose proof (delay_nonneg po) as Hd. pose proof (delay_nonneg pusho) as Hd2.
     destruct (failed po).
     { injection Hs as <-. unfold InvA, adv. fin. }
@@ -194,16 +196,17 @@ Proof.
         try (destruct (NS _ _ BS (fun x => x) _ Hlf); split; [lia|left; lia]);
         try (destruct (NS _ _ BH (fun x => x) _ Hlf); split; [lia|left; lia]);
         try (destruct (NS _ _ BP ltac:(intros [? _]; discriminate) _ Hlf); split; [lia|left; lia]).
-  - (* SelTick *) destruct (lpc s) eqn:Epc; try discriminate. destruct (chan s) eqn:Ec; [|discriminate]. injection Hs as <-.
+  - (* SelTick *) destruct (lpc s) eqn:Epc; try discriminate. destruct (chan s) eqn:Ec; [|discriminate]. rewrite Hctx in Hs. cbn [andb] in Hs. injection Hs as <-.
     rewrite Hfetch. unfold InvB, clear_lf. destruct (stale s) eqn:Est; red_st.
     + split; [discriminate|]. split3; lfintro; discriminate.
     + split; [discriminate|].
       split3; lfintro; [destruct (BS _ Hlf) as [H1 H2]|destruct (BH _ Hlf) as [H1 H2]|destruct (BP _ Hlf) as [H1 H2]];
         (split; [lia|]); unfold wait_ok in H2;
         (destruct H2 as [H2|[H2|(_ & [H2|(H2 & _)])]]; [left; lia|try tauto; try (destruct H2; congruence)|congruence|congruence]).
-  - (* SelTok *) destruct (lpc s) eqn:Epc; try discriminate. destruct (tok s) eqn:Et; [|discriminate]. injection Hs as <-.
+  - (* SelTok *) destruct (lpc s) eqn:Epc; try discriminate. destruct (tok s) eqn:Et; [|discriminate]. rewrite Hctx in Hs. cbn [andb] in Hs. injection Hs as <-.
     unfold InvB, take_token, clear_lf. rewrite Hrec. red_st. split; [destruct (c_drain c); [discriminate|auto]|].
     split3; lfintro; discriminate.
+  - (* SelDone *) destruct (lpc s) eqn:Epc; try discriminate. rewrite Hctx in Hs. discriminate.
   - (* LoopFetch *) destruct (lpc s) eqn:Epc; try discriminate. pose proof (delay_nonneg po) as Hd. pose proof (delay_nonneg pusho) as Hd2.
     assert (NS : forall o' (e : Prop), lfok o' e s -> ~ e -> forall t, o' = Some t -> t <= now s /\ t + c_ri c <= now s).
     { intros o' e H Hne t Ht. destruct (H t Ht) as [H1 [H2|[H2|[H2 _]]]]; auto; [tauto|congruence]. }
@@ -243,10 +246,11 @@ Proof.
   - destruct (lpc s) eqn:Epc; try discriminate. rewrite Hsw in Hs.
     destruct (expected_arm (failed o) (ff s) (is_nil (q s))); destruct (failed o); injection Hs as <-; unfold arm, adv; red_st; exact I.
   - destruct (lpc s) eqn:Epc; try discriminate. destruct (failed o); [|destruct (q s)]; injection Hs as <-; unfold arm, adv; red_st; exact I.
-  - destruct (lpc s) eqn:Epc; try discriminate. destruct (chan s); [|discriminate]. injection Hs as <-. rewrite Hfetch.
+  - destruct (lpc s) eqn:Epc; try discriminate. destruct (chan s); [|discriminate]. rewrite Hctx in Hs. cbn [andb] in Hs. injection Hs as <-. rewrite Hfetch.
     unfold clear_lf. destruct (stale s); red_st; exact I.
-  - destruct (lpc s) eqn:Epc; try discriminate. destruct (tok s); [|discriminate]. injection Hs as <-.
+  - destruct (lpc s) eqn:Epc; try discriminate. destruct (tok s); [|discriminate]. rewrite Hctx in Hs. cbn [andb] in Hs. injection Hs as <-.
     unfold take_token, clear_lf. rewrite Hrec. red_st. exact I.
+  - destruct (lpc s) eqn:Epc; try discriminate. rewrite Hctx in Hs. discriminate.
   - destruct (lpc s) eqn:Epc; try discriminate. destruct (failed po); [injection Hs as <-; unfold adv; red_st; exact I|].
     destruct (q s); [injection Hs as <-; unfold adv; red_st; exact I|].
     injection Hs as <-. destruct resched as [p'|]; [destruct (failed pusho)|]; destruct valid; destruct (c_fetch_resets c);
@@ -271,10 +275,11 @@ Proof.
     + split; [auto|discriminate].
   - destruct (lpc s) eqn:Epc; try discriminate. destruct o; try discriminate. cbn [failed] in Hs.
     destruct (q s); injection Hs as <-; unfold arm, adv; rewrite ?Hclr; red_st; auto.
-  - destruct (lpc s) eqn:Epc; try discriminate. destruct (chan s); [|discriminate]. injection Hs as <-. rewrite Hfetch.
+  - destruct (lpc s) eqn:Epc; try discriminate. destruct (chan s); [|discriminate]. rewrite Hctx in Hs. cbn [andb] in Hs. injection Hs as <-. rewrite Hfetch.
     unfold clear_lf. destruct (stale s); red_st; split; auto; discriminate.
-  - destruct (lpc s) eqn:Epc; try discriminate. destruct (tok s); [|discriminate]. injection Hs as <-.
+  - destruct (lpc s) eqn:Epc; try discriminate. destruct (tok s); [|discriminate]. rewrite Hctx in Hs. cbn [andb] in Hs. injection Hs as <-.
     unfold take_token, clear_lf. rewrite Hrec. red_st. split; auto; discriminate.
+  - destruct (lpc s) eqn:Epc; try discriminate. rewrite Hctx in Hs. discriminate.
   - destruct (lpc s) eqn:Epc; try discriminate. destruct po; try discriminate. cbn [failed] in Hs.
     destruct (q s); [injection Hs as <-; unfold adv; red_st; split; auto; discriminate|].
     destruct pusho; try discriminate. cbn [failed] in Hs.
@@ -310,10 +315,11 @@ Proof.
     + split; [auto|discriminate].
   - destruct (lpc s) eqn:Epc; try discriminate. destruct o; try discriminate. cbn [failed] in Hs.
     destruct (q s); injection Hs as <-; unfold arm, adv; rewrite ?Hclr; red_st; auto.
-  - destruct (lpc s) eqn:Epc; try discriminate. destruct (chan s); [|discriminate]. injection Hs as <-. rewrite Hfetch.
+  - destruct (lpc s) eqn:Epc; try discriminate. destruct (chan s); [|discriminate]. rewrite Hctx in Hs. cbn [andb] in Hs. injection Hs as <-. rewrite Hfetch.
     unfold clear_lf. destruct (stale s); red_st; split; auto; discriminate.
-  - destruct (lpc s) eqn:Epc; try discriminate. destruct (tok s); [|discriminate]. injection Hs as <-.
+  - destruct (lpc s) eqn:Epc; try discriminate. destruct (tok s); [|discriminate]. rewrite Hctx in Hs. cbn [andb] in Hs. injection Hs as <-.
     unfold take_token, clear_lf. rewrite Hrec. red_st. split; auto; discriminate.
+  - destruct (lpc s) eqn:Epc; try discriminate. rewrite Hctx in Hs. discriminate.
   - destruct (lpc s) eqn:Epc; try discriminate. destruct po; try discriminate. cbn [failed] in Hs.
     destruct (q s); [injection Hs as <-; unfold adv; red_st; split; auto; discriminate|].
     destruct pusho; try discriminate. cbn [failed] in Hs.
@@ -340,11 +346,11 @@ End Good.
 Definition good (c : cfg) : Prop :=
   (forall e f z, select_arm (c_sw c) e f z = Some (expected_arm e f z)) /\
   (1 <=? c_cap c) = true /\ c_tick_empty c = TZero /\ c_tick_err c = TRetryInterval /\ c_tick_cmp c = OpGt /\
-  c_clears_ff c = true /\ c_sets_ff c = true /\ c_tick_fetches c = true /\ c_tok_recomputes c = true.
+  c_clears_ff c = true /\ c_sets_ff c = true /\ c_tick_fetches c = true /\ c_tok_recomputes c = true /\ c_ctxdone c = false.
 
 Lemma code_good : forall drain ri, good (code_cfg drain ri).
 Proof.
-  intros drain ri. unfold good, code_cfg. cbn [c_sw c_cap c_tick_empty c_tick_err c_tick_cmp c_clears_ff c_sets_ff c_tick_fetches c_tok_recomputes].
+  intros drain ri. unfold good, code_cfg. cbn [c_sw c_cap c_tick_empty c_tick_err c_tick_cmp c_clears_ff c_sets_ff c_tick_fetches c_tok_recomputes c_ctxdone].
   split; [intros [] [] []; reflexivity|]. repeat split; reflexivity.
 Qed.
 
@@ -359,7 +365,7 @@ Qed.
 
 Lemma inv_run : forall c, good c -> forall q0 tok0 tr s, run c (init q0 tok0) tr = Some s -> Inv c s.
 Proof.
-  intros c (G1 & G2 & G3 & G4 & G5 & G6 & G7 & G8 & G9) q0 tok0 tr s Hr.
+  intros c (G1 & G2 & G3 & G4 & G5 & G6 & G7 & G8 & G9 & G10) q0 tok0 tr s Hr.
   refine (run_inv c (Inv c) _ tr _ _ (inv_init c q0 tok0) Hr).
   intros s0 l s1 (A & B & C) Hs. split; [|split].
   - eapply invA_step; eauto.
@@ -382,8 +388,8 @@ Qed.
 Lemma nofault_clean : forall c, good c -> forall q0 tok0 tr s, nofault tr ->
   run c (init q0 tok0) tr = Some s -> ff s = false /\ (lpc s = PSelect -> clean s = true).
 Proof.
-  intros c (G1 & G2 & G3 & G4 & G5 & G6 & G7 & G8 & G9) q0 tok0 tr s Hn Hr.
-  exact (run_invF c G1 G2 G6 G8 G9 tr _ _ Hn (invF_init q0 tok0) Hr).
+  intros c (G1 & G2 & G3 & G4 & G5 & G6 & G7 & G8 & G9 & G10) q0 tok0 tr s Hn Hr.
+  exact (run_invF c G1 G2 G6 G8 G9 G10 tr _ _ Hn (invF_init q0 tok0) Hr).
 Qed.
 
 Lemma no_lost_wakeup_inv : forall drain ri q0 tok0 tr s, nofault tr ->
@@ -413,17 +419,17 @@ Lemma due_head_general : forall c, good c -> forall q0 tok0 tr s,
 Proof.
   intros c G q0 tok0 tr s Hr Hp Hc Hq Hdue.
   destruct (no_lost_wakeup_general c G _ _ _ _ Hr Hp Hc) as (Ha & Hat & Hd). specialize (Hd Hq).
-  destruct G as (G1 & G2 & G3 & G4 & G5 & G6 & G7 & G8 & G9).
+  destruct G as (G1 & G2 & G3 & G4 & G5 & G6 & G7 & G8 & G9 & G10).
   destruct Hp as (P1 & P2 & P3 & P4).
   assert (E1 : step c s TimerFire = Some (set_armed false (set_chan true s))).
   { cbn [step]. rewrite Ha. assert (dl s <=? now s = true) as -> by (apply Z.leb_le; lia). reflexivity. }
   exists (set_armed false (set_chan true s)). split; [exact E1|]. split.
-  - intros l s2 Hl Hs. destruct l; cbn [loop_label] in Hl; try discriminate; cbn [step] in Hs; red_st_in Hs; rewrite ?P1, ?P2 in Hs; try discriminate. reflexivity.
+  - intros l s2 Hl Hs. destruct l; cbn [loop_label] in Hl; try discriminate; cbn [step] in Hs; red_st_in Hs; rewrite ?P1, ?P2, ?G10 in Hs; try discriminate. reflexivity.
   - remember (if stale s then clear_lf (set_armed false (set_chan true s)) else set_armed false (set_chan true s)) as sa.
     assert (Ea : lpc sa = PSelect /\ q sa = q s /\ pops sa = pops s) by (subst sa; destruct (stale s); unfold clear_lf; red_st; auto).
     destruct Ea as (Ea1 & Ea2 & Ea3).
     exists (set_lpc PFetch (set_chan false (set_stale false sa))). split.
-    { cbn [step]. red_st. rewrite P1, G8. subst sa. reflexivity. }
+    { cbn [step]. red_st. rewrite P1, G8, G10. subst sa. reflexivity. }
     split; [reflexivity|]. split; [red_st; exact Ea2|]. split.
     + intros l s3 Hl Hs. destruct l; cbn [loop_label] in Hl; try discriminate; cbn [step] in Hs; red_st_in Hs; try discriminate.
       exists po, valid, resched, pusho. split; [reflexivity|]. intros Hf. rewrite Hf, Ea2 in Hs.
@@ -466,6 +472,7 @@ Lemma steps_total : forall drain ri q0 tok0 tr s, let c := code_cfg drain ri in
   | PTick => forall o, can_step c s (LoopTick o)
   | PFetch => forall po v r pu, can_step c s (LoopFetch po v r pu)
   | PDispatch => can_step c s LoopDispatched
+  | PExit => True
   | PSelect => (tok s = true /\ can_step c s SelTok) \/ (chan s = true /\ can_step c s SelTick) \/
                (armed s = true /\ exists s1 s2 s3, step c s (Adv (Z.max 0 (dl s - now s))) = Some s1 /\
                                    step c s1 TimerFire = Some s2 /\ step c s2 SelTick = Some s3)
@@ -473,7 +480,7 @@ Lemma steps_total : forall drain ri q0 tok0 tr s, let c := code_cfg drain ri in
 Proof.
   intros drain ri q0 tok0 tr s c Hr. subst c. pose proof (code_good drain ri) as G.
   destruct (inv_run _ G _ _ _ _ Hr) as ((_ & _ & I3 & _) & _).
-  destruct G as (G1 & G2 & G3 & G4 & G5 & G6 & G7 & G8 & G9).
+  destruct G as (G1 & G2 & G3 & G4 & G5 & G6 & G7 & G8 & G9 & G10).
   split; [intros q'; eexists; reflexivity|]. split.
   { intros dt Hdt. unfold can_step. cbn [step]. apply Z.leb_le in Hdt. rewrite Hdt. eexists; reflexivity. }
   destruct (lpc s) eqn:Epc.
@@ -489,6 +496,7 @@ Proof.
     split; [reflexivity|]. cbn [step]. red_st. rewrite Epc. reflexivity.
   - intros po v r pu. unfold can_step. cbn [step]. rewrite Epc. destruct (failed po); [|destruct (q s)]; eexists; reflexivity.
   - unfold can_step. cbn [step]. rewrite Epc. eexists; reflexivity.
+  - exact I.
 Qed.
 
 Lemma retry_no_faster_than_interval : forall drain ri q0 tok0 tr s t,
@@ -551,8 +559,8 @@ Proof.
   intros drain ri q0 tok0 tr1 s1 tr2 s2 c Hr1 Hn Hr2 Hnarm Hp. pose proof (code_good drain ri) as G.
   assert (Hr : run c (init q0 tok0) (tr1 ++ tr2) = Some s2) by (rewrite run_app, Hr1; exact Hr2).
   apply (no_lost_wakeup_general _ G _ _ _ _ Hr Hp).
-  destruct G as (G1 & G2 & G3 & G4 & G5 & G6 & G7 & G8 & G9).
-  destruct (run_invR c G1 G2 G6 G8 G9 (narm s1) tr2 _ _ Hn (invR_start s1) Hr2) as [_ R2].
+  destruct G as (G1 & G2 & G3 & G4 & G5 & G6 & G7 & G8 & G9 & G10).
+  destruct (run_invR c G1 G2 G6 G8 G9 G10 (narm s1) tr2 _ _ Hn (invR_start s1) Hr2) as [_ R2].
   apply R2; [exact Hnarm|apply Hp].
 Qed.
 
